@@ -14,7 +14,7 @@
    by instant - finding F18 shows the code deviates when nobody watches); checked on every run by complete-trace
    correspondence and by check_C05 (with check_C05_last) on implementation traces. *)
 From PS Require Import Lib.Base Generated.Consts Model.SdTypes Model.Config Model.Session Model.StackTypes Model.Stack Model.StackIO
-  Spec.TraceSpec Spec.StoreSpec Proofs.StoreSpecProofs Proofs.KeyEquiv Proofs.WorldInv Proofs.WorldInv2 Proofs.FoundLog Proofs.Same5 Proofs.WorldFound.
+  Spec.TraceSpec Spec.StoreSpec Proofs.StoreSpecProofs Proofs.KeyEquiv Proofs.WorldInv Proofs.WorldInv2 Proofs.FoundLog Proofs.Same5 Proofs.WorldFound Model.Skel Generated.LogicGen Proofs.GenSkel.
 
 Theorem C05_history_alternates : forall touches t_end e,
   expected_history touches t_end = Some e -> alternates true (map snd e) = true.
@@ -42,6 +42,15 @@ Proof. exact reachable_discovery_truthful. Qed.
 Theorem C05_stop_offer_withdraws_watched_or_not : forall X e a s w, GP X w -> from_offer_entry e = Ok s -> e_ttl e = 0 ->
   forall k, fkey s k = true -> stored a k (handle_offer e a w) = false.
 Proof. exact stop_offer_withdraws. Qed.
+(* the control flow of ServiceDiscover.handle_offer / is_watching_service in the model IS the one translated from the
+   source text on every run: which of service_offer_stopped / service_offered is called under which condition *)
+Theorem C05_handle_offer_is_the_translated_source : forall e a w,
+  Some (handle_offer e a w) = fold_left (run_offer_act e a) (gen_handle_offer e (is_watching e w)) (Some w).
+Proof. exact handle_offer_is_the_translated_source. Qed.
+Theorem C05_is_watching_is_the_translated_source : forall e w,
+  is_watching e w = gen_is_watching (match watch_all w with [] => false | _ :: _ => true end)
+                                    (existsb (fun p => match matches_offer (fst p) e with Ok true => true | _ => false end) (watched w)).
+Proof. exact is_watching_is_the_translated_source. Qed.
 (* the invariant is kept by each operation on its own ... *)
 Theorem C05_kept_by_new_offer_and_refresh : forall X ttl a k w, GP X w -> F5 w -> F5 (fst (store_refresh SFound ttl a k w)).
 Proof. exact F5_store_refresh_found. Qed.
@@ -93,3 +102,5 @@ Print Assumptions C05_kept_by_reboot_cleanup.
 Print Assumptions C05_kept_by_connection_loss.
 Print Assumptions C05_kept_by_watch_all.
 Print Assumptions C05_kept_by_unwatch_all.
+Print Assumptions C05_handle_offer_is_the_translated_source.
+Print Assumptions C05_is_watching_is_the_translated_source.
